@@ -271,6 +271,18 @@ def tier_cases(draw):
         spec["maxT"] = max(spec["maxT"], t0 + 1.0)
         spec["minT"] = min(spec["minT"], t0)
         a, b = t0 + d / 2, t0 + draw(st.sampled_from([0.5, 1.0, 0.3]))
+    if spec["type"] == "point" and style != "grid" and draw(st.integers(0, 5)) == 0:
+        # two same-labelled points just before and just after the region: after the shrink they are closer than the fuzzy equality
+        t0 = draw(st.integers(5, 30)) / 10
+        spec["entries"] = sorted([e for e in spec["entries"] if not t0 - 0.01 < e[0] < t0 + 1.01] + [[t0 - 5e-10, "L"], [t0 + 1.0 + 5e-10, "L"]])
+        spec["maxT"] = max(spec["maxT"], t0 + 2.0)
+        spec["minT"] = min(spec["minT"], t0 - 5e-10)
+        a, b = t0, t0 + 1.0
+    if spec["type"] == "interval" and style != "grid" and spec["entries"] and draw(st.integers(0, 5)) == 0:
+        # a region ending a few nanoseconds before an interval starts
+        e0 = draw(st.sampled_from(spec["entries"]))
+        if e0[0] - 4e-9 > spec["minT"] + 0.1 and not any(x[0] < e0[0] - 4e-9 < x[1] for x in spec["entries"]):
+            a, b = max(spec["minT"], e0[0] - 0.5), e0[0] - 4e-9
     if style == "grid" and draw(st.integers(0, 7)) == 0:
         # a time axis that starts below zero (times relative to an event): the constructor and validate() accept it
         k = draw(st.sampled_from([2.5, 4.0, 1.0]))
